@@ -18,6 +18,9 @@
 //    (`fails rotation` for F3, `fails mirror` for F6 and F11); every other failure of such a line has a different
 //    prefix (`fails panic:`, `fails far-from-seam`, `fails pairing-lost`, `fails avalanche-count`, `fails pairing`,
 //    `fails z-far`).
+//  * `c13-probe-mir <recipe>`, `c13-probe-rot <recipe> <k>`  measurement aids, never generated: the numbers behind
+//    THETA and FAR1/FAR2 (see the comments there) can be reproduced through `vphys obs`.
+// Recipe: n<samples>/w<start>+<len>,../h<wire>@<t0>*<amp bits>,../p<col>.<row>@<t0>*<amp bits>,..[/l<wire>=<len>,..]
 use crate::util::*;
 use alpha_g_detector::alpha16::aw_map::TpcWirePosition;
 use alpha_g_detector::alpha16::ADC32_RATE;
@@ -802,7 +805,7 @@ fn vary_lengths(r: &mut Rng, e: &mut Ev) {
     for _ in 0..k {
         let w = r.pick(&pl);
         let len = match r.below(6) {
-            0 => 1,
+            0 => r.below(2) as usize, // an empty or one-sample signal
             1 => e.n - 1,
             2 => e.n + 1,
             3 => e.n + r.range(2, 12) as usize,
